@@ -399,6 +399,20 @@ def validator_facts(repo):
         if needle not in src:
             raise TranslationError("F16", "validate", "shape changed: missing `%s`" % needle)
 
+    # return conventions of validated() / normalized() and the errors property
+    def body_src(name, cls=bv):
+        fn = find_func(cls, name)
+        return [ast.unparse(st) for st in fn.body if not (isinstance(st, ast.Expr) and isinstance(st.value, ast.Constant))]
+    if body_src('validated') != ["always_return_document = kwargs.pop('always_return_document', False)", "self.validate(*args, **kwargs)",
+                                 "if self._errors and (not always_return_document):\n    return None\nelse:\n    return self.document"]:
+        raise TranslationError("F16", "validated", "return convention changed")
+    if body_src('normalized') != ["self.__init_processing(document, schema)", "self.__normalize_mapping(self.document, self.schema)",
+                                  "self.error_handler.end(self)",
+                                  "if self._errors and (not always_return_document):\n    return None\nelse:\n    return self.document"]:
+        raise TranslationError("F16", "normalized", "return convention changed")
+    if body_src('errors') != ["return self.error_handler(self._errors)"]:
+        raise TranslationError("F16", "errors", "the errors property no longer renders self._errors")
+
     # metaclass: per-class cache
     im = find_class(mod, 'InspectedValidator')
     init = find_func(im, '__init__')
